@@ -3,6 +3,7 @@ from ..core import Acc, Viol, jhash
 from .. import pk, gen, cmp, corpus
 
 ID = 'C16'
+HORIZON_S = 1800   # one case = one input under all its transformations
 LEVEL = 'exploration'
 LEVEL_TEXT = ('Every ordered pair of group kinds (19 titratable kinds incl. termini and ligand groups x 53 kinds incl. every ligand '
               'template and all 21 ions) is docked at distances straddling the interaction cut-offs and at burial levels that switch '
